@@ -62,7 +62,7 @@ def parseMode? (s : String) : Option TxMode :=
 
 def parseLeave? (s : String) : Option Leave :=
   if s = "ok" then some .ok else if s = "exc" then some .error else if s = "base" then some .base
-  else if s = "cancel" then some .cancelled else none
+  else if s = "cancel" then some .cancelled else if s = "falsy" then some .falsy else none
 
 /-- insertion sort by key (tiny lists) -/
 def insertKey (x : Nat × Entry) : List (Nat × Entry) → List (Nat × Entry)
